@@ -308,7 +308,8 @@ Run(d, t, S) ==
          Run(d, t, [S EXCEPT !.todo = rest,
                       !.evs = Append(@, [e |-> "op", t |-> t, name |-> it.name, c |-> it.c, ph |-> "begin", res |-> ""])])
     [] it.k = "ope" ->
-         LET res == IF it.name = "is_poisoned" THEN (IF S.pf[it.c] THEN "true" ELSE "false") ELSE "" IN
+         LET res == IF it.name = "is_poisoned" THEN (IF S.pf[it.c] THEN "true" ELSE "false")
+                    ELSE IF it.name = "dupcheck" THEN (IF d.C[it.c].lv = {} THEN "1111" ELSE "1010") ELSE "" IN
          Run(d, t, [S EXCEPT !.todo = rest,
                       !.pf = IF it.name = "clear_poison" THEN [S.pf EXCEPT ![it.c] = FALSE] ELSE S.pf,
                       !.evs = Append(@, [e |-> "op", t |-> t, name |-> it.name, c |-> it.c, ph |-> "end", res |-> res])])
